@@ -10,7 +10,7 @@ Scn(s, m, e) == [src |-> s, mk |-> m, ek |-> e, mtab |-> <<>>, etab |-> <<>>]
 
 Init == \E n \in 0..MaxLen : \E s \in [1..n -> Alphabet] :
           \E m \in (IF Has(s, "$") THEN {"none", "all", "part"} ELSE {"none"}) :
-            \E e \in (IF Has(s, "$") THEN {"none", "set"} ELSE {"none"}) :
+            \E e \in (IF Has(s, "$") THEN {"none", "set"} \cup (IF Has(s, "(") THEN {"empty"} ELSE {}) ELSE {"none"}) :
               SInit(Scn(s, m, e))
 
 Spec == Init /\ [][SNext]_svars
